@@ -35,6 +35,51 @@ CLAIMS = {
         note="decided by a static resolver, not an SMT back end; trusted: CPython symtable/ast scoping, python-2 branches folded; "
              "excluded: names injected via globals()[...] (flow/zip.py), attribute errors on instances, module-scope ordering"),
 }
+TECH = ("contract-based deductive verification: sidecar contracts on the real functions, verification conditions generated "
+        "from the /repo ASTs on every run (loop invariants, decreases, frame, laziness clauses at yields), discharged by "
+        "z3/cvc5; bounded run-time evaluation of reference specifications on the real code as labelled stand-in (never "
+        "counted as proved)")
+CLAIMS["C01"] = dict(
+    category="proof",
+    text="Deductive proof over the abstract element interface (an element denotes a stream function el_run / a map el_call / "
+         "a fold el_fill+el_compute): Sequence.run returns, for element lists and flows of any length, exactly the left-to-right "
+         "fold seq_run(_data_seq, flow) and pulls nothing while building the chain; Run._call_run maps, Run._fc_run fills every "
+         "value in order and then computes; Source.__call__ feeds first() (or the iterable) into the tail's fold; Run.__init__ "
+         "and Sequence.__init__ (argument lists of length 0..2 unrolled, every element kind) accept exactly the convertible "
+         "kinds, keep order, drop _has_no_data elements and raise LenaTypeError at construction for anything else - Sequence.run "
+         "itself has no raising path. Regrouping into nested Sequences / Source tails follows because a nested Sequence is an "
+         "element whose el_run is its own fold (fold of a concatenation = composition of folds; that lemma, flatten/"
+         "alter_sequence and the concrete framework elements are exercised by the bounded stand-in: all bracketings of lists "
+         "<= 3 over 20 element kinds, exhaustively).",
+    design_ref="DESIGN.md 5 (C01), B.2", technique=TECH,
+    note=TRUST + "; element interface assumption (DESIGN 2.4 item 4); Sequence.__init__ proved for 0..2 arguments (unrolled), "
+         "LenaSequence._set_context assumed there (it is the subject of C13)")
+CLAIMS["C07"] = dict(
+    category="other",
+    text="Proof part: difference(d1, d2, level) == diff(d1, d2, level) and update_recursively makes d == upd(old d, other), for "
+         "all nested dictionaries (SMT datatype Val = scalar | dict, unbounded depth and key sets, every level), with the "
+         "reference functions written from the property text (items of d1 not contained in d2 incl. falsy values; other "
+         "contained in d, untouched items kept); arguments documented as unchanged are immutable values in the encoding and "
+         "the bodies perform no store into them; LenaTypeError exactly for non-dict arguments. Bounded part (labelled, never "
+         "counted as proved): intersection, update_nested, and the algebraic laws (commutative / associative / idempotent / "
+         "greatest lower bound / deep copy by object identity / reconstruct law) exhaustively over the property's small "
+         "alphabets, plus the users in split.py, zip.py, group_plots.py. A genuine defect (difference dropped falsy values) "
+         "was found by both parts and repaired by a fix: commit.",
+    design_ref="DESIGN.md 5 (C07), B.5", technique=TECH,
+    note=TRUST + "; only z3 decides Val queries (cvc5 1.0.3 rejects the nested-recursive datatype); dict iteration = arbitrary "
+         "unvisited key per step; termination of recursion over finite nested dicts assumed")
+CLAIMS["C17"] = dict(
+    category="other",
+    text="Proof part: Slice.fill_into (steps 1..4, unbounded start/stop/index) fills the wrapped element iff the running index is "
+         "in range(start, stop, step), keeps its object invariant (_next_index is the least selected index >= _index-1) and "
+         "raises LenaStopFill exactly when no index >= the current one is selected (or the element itself stops); Reverse.run "
+         "yields the flow reversed and terminates (decreases clause). Bounded part (labelled): the property's whole finite "
+         "domain - start, stop in {None,-7..7}, step in {None,1..4}, flows 0..10 for Slice.run against xs[start:stop:step] by "
+         "identity, fill_into against every later index, constructor rejections, Chain / CountFrom / RunningChunkBy - is "
+         "enumerated completely (exhaustive: true).",
+    design_ref="DESIGN.md 5 (C17), B.3", technique=TECH,
+    note=TRUST + "; islice(count(0), start, stop, step) = arithmetic progression (library contract, tier A); Slice.run is "
+         "itertools.islice itself (library); _run_negative_islice is bounded only")
 NA_REASON = "check not built yet (work in progress; see DESIGN.md section 8)"
 
 def main():
